@@ -359,12 +359,12 @@ def parse_facebook_url(url, allow_relative_urls=False):
             group_id = next((s for s in sets if s.startswith("g.")), None)
 
             if group_id:
-                group_id = group_id.split("g.", 1)[1]
+                group_id = group_id.split("g.", 1)[1] or None
 
             album_id = next((s for s in sets if s.startswith("a.")), None)
 
             if album_id:
-                album_id = album_id.split("a.", 1)[1]
+                album_id = album_id.split("a.", 1)[1] or None
 
         return FacebookPhoto(query["fbid"][0], group_id=group_id, album_id=album_id)
 
